@@ -234,6 +234,44 @@ Theorem empty_coverage_task_removes_nothing :
     cleanup_task b q msize (mkTask levels T all complete (conf_skip empties)) walked c = c.
 Proof. exact empty_coverage_l. Qed.
 
+(* remove_before given as a time delta (seed.yaml remove_before: {weeks, days, hours, minutes, seconds}): the remove
+   time is now minus the sum of ALL configured units (remove_time_of_delta, compared with the real
+   before_timestamp_from_options) ... *)
+Theorem remove_time_of_delta_is_now_minus_all_units :
+  forall now w d h m s,
+    remove_time_of_delta now w d h m s = now - 604800 * w - 86400 * d - 3600 * h - 60 * m - s.
+Proof. exact remove_time_of_delta_sum. Qed.
+
+(* ... so a tile whose whole second lies after now minus that sum is kept by every strategy, on every backend that
+   keeps timestamps (e.g. days: 1, hours: 12: a tile 30 hours old stays). *)
+Theorem delta_newer_tile_kept :
+  forall b q msize t walked c e now w d h m s,
+    In e c -> is_tile e = true -> t_all t = false -> stores_timestamp b = true -> 0 < q -> 0 <= e_mtime e ->
+    t_T t = q * remove_time_of_delta now w d h m s ->
+    q * (now - (604800 * w + 86400 * d + 3600 * h + 60 * m + s)) < (e_mtime e / q) * q ->
+    In e (cleanup_task b q msize t walked c).
+Proof. exact delta_newer_tile_kept_l. Qed.
+
+(* The walk premise discharged through C11's model of the TileWalker descent (Seed.geo_walk; tilewalker_cleanup uses
+   the same TileWalker as seeding): when the processed meta tiles are those the modelled descent hands over - run to
+   completion or continued from any saved progress `old` - a tile whose meta tile (meta size function msize of the tile
+   manager, rectangle Seed.meta_bbox of the grid g) the coverage classifies as NONE is kept, whatever the backend,
+   remove time and remove_all.  Premises are those of C11.walk_sound: well-formed grid and meta size, resolutions of at
+   least 10 coordinate quanta, valid ascending levels, start rectangle of positive area, a set-like coverage
+   (cov_overlap_monotone: holds for bbox coverages, C11.bbox_coverages_overlap_monotone).
+   _partial: the converse direction (every intersecting meta tile of a selected level is processed, C11
+   walk_complete_interior / walk_complete_nested) is not carried over to cleanup here; tilewalk_remaining_is_spec keeps
+   its premise about the recorded walk for that direction. *)
+From MP Require Seed Seed_proofs.
+Theorem seed_walk_outside_coverage_kept_partial :
+  forall b q msize t g msx msy cov levels root old c e dim l x y,
+    strategy b t = SWalk -> In e c -> e_place e = PTile dim l x y ->
+    Seed_proofs.geo_wf g msx msy -> Seed_proofs.fine_res g -> Seed_proofs.levels_wf g levels -> levels <> [] ->
+    Seed_proofs.proper root -> Seed_proofs.cov_overlap_monotone cov ->
+    cov (Seed.meta_bbox g msx msy (main_tile msize (x, y, l))) = 0 ->
+    In e (cleanup_task b q msize t (Seed.procs (Seed.geo_walk g msx msy cov 0 levels root old)) c).
+Proof. exact seed_walk_outside_coverage_kept_l. Qed.
+
 (* ---- refuted: the side condition dim_visible is necessary (known finding F15, reproduced on the implementation) *)
 
 (* F15: directory strategy skips dimension directories. *)
